@@ -129,6 +129,9 @@ def check_policy(case: dict) -> Verdict:
         records = [e for e in brk if e[1] != "allow"]
         end = oracles.ending(cv)
         if not allows:
+            if cv.atts:
+                # the operation ran although the breaker was never asked: whatever its state, it could not refuse
+                out.append(("C07:operation-invoked-without-admission", f"call #{cv.j} ({entries[cv.j % len(entries)]}) invoked the operation {len(cv.atts)} times without asking the breaker for admission (breaker state {m.state})"))
             if records and not cv.atts:
                 # a call that never asked for admission reported to the breaker
                 out.append(("C07:record-by-unadmitted-call", f"call #{cv.j} ({entries[cv.j % len(entries)]}) was never admitted but reported {[r[1] for r in records]}"))
